@@ -92,7 +92,10 @@ static void case_stats(ByteSource& in, CaseInfo& ci) {
     else M = in.flag() ? ref::pow2(in.range(10, 200)) * Int(3) : ref::pow2(in.range(10, 200)) - Int(1);
     Z r, m; mpz_from_int(m, M); ci.d("stats %s mpz_urandomm m=%s x%u", K.desc.c_str(), ref::hex(M).c_str(), N);
     std::vector<unsigned> bin(16, 0); for (unsigned i = 0; i < N; i++) { mpz_urandomm(r, S, m); Int v = int_from_mpz(r); REQUIRE(!v.neg && v < M, "mpz_urandomm out of range"); bin[ref::tdiv(v * Int(16), M).low()]++; }
-    double e = N / 16.0, c = 0; for (int i = 0; i < 16; i++) c += (bin[i] - e) * (bin[i] - e) / e; REQUIRE(c < 130, "%s: chi-square of mpz_urandomm over 16 bins is %.0f (15 degrees of freedom; alarm level 130)", K.desc.c_str(), c); }
+    // expected count of bin i: N * #{v in [0,M): floor(16v/M) = i} / M; the bins hold unequally many values when 16 does not divide M, which matters for small M
+    // (found by the fuzzer: m = 58 has bins of 3 and 4 values and gave chi-square 162 against equal expectations); above 2^40 the difference is below 2^-36
+    double ex[16]; if (M.bits() <= 40) { uint64_t mm = M.low(); for (int i = 0; i < 16; i++) { uint64_t lo = (i * mm + 15) / 16, hi = ((i + 1) * mm + 15) / 16; ex[i] = (double)N * (double)(hi - lo) / (double)mm; } } else for (int i = 0; i < 16; i++) ex[i] = N / 16.0;
+    double c = 0; for (int i = 0; i < 16; i++) c += (bin[i] - ex[i]) * (bin[i] - ex[i]) / ex[i]; REQUIRE(c < 130, "%s: chi-square of mpz_urandomm over 16 bins is %.0f (15 degrees of freedom; alarm level 130)", K.desc.c_str(), c); }
   else { // 1-bit draws: a linear congruential generator must not expose its short-period low bits
     const unsigned L = 4096; std::vector<unsigned char> s(L); unsigned ones = 0; for (unsigned i = 0; i < L; i++) { s[i] = (unsigned char)gmp_urandomb_ui(S, 1); ones += s[i]; } ci.d("stats %s 1-bit draws x%u", K.desc.c_str(), L); ci.label("one_bit_stream");
     REQUIRE(std::abs((int)ones - (int)L / 2) <= 8 * 32, "%s: %u of %u one-bit draws are 1", K.desc.c_str(), ones, L);
